@@ -175,3 +175,15 @@ _add("C18", "loaded rule objects are never written after loading (rules.immutabl
 _add("C19", "api.entry hands out only entries whose context it has not recycled.")
 _add("C20", "a resource's recycler is created once.")
 _add("C01", "every method of the entry that writes into its context (TraceError/TraceCallee path) is guarded by an ownership marker that the first Exit sets before the context is recycled.")
+_add("C01", "no function of the module hands out a TokenResult kept in a long-lived object (a shared result would become the rule-check result of unrelated entries through the pooled context); a recycled EntryOptions / EntryContext has the same constant defaults as a new one.")
+_add("C02", "whole-set and per-resource load paths of a rule module write the same package-level state (a snapshot that only one path maintains goes stale).")
+_add("C05", "every per-value cache of a hot-parameter controller is sized by the rule's ParamsMaxCapacity whenever that is positive.")
+_add("C07", "a recycled EntryOptions has the same default traffic type (Outbound) as a new one.")
+_add("C08", "a window view's stored bucket length is interval / sample count of the same view.")
+_add("C13", "the per-resource update writes (stores or deletes) the resource's entry of every enforced / reported map on every successful path.")
+_add("C15", "in a function that recovers panics no explicitly released mutex is held while user-registered code can run.")
+_add("C16", "inside the Once closure of Exit every non-panicking path reaches the chain's exit when a chain is set.")
+_add("C18", "payload bytes are not shared between deliveries (a handler keeping the caller's slice uncopied and a source reusing its read buffer do not coexist).")
+_add("C20", "the recycler never puts a tracked (possibly recovered) node back to not-recovered.")
+_add("C12", "outside the constructors the retry deadline is written only as the arming step of a transition to Open.")
+_add("C03", "a transition that arms the retry deadline before its CAS to Open is called only where a state read established the source state; the deadline is written nowhere else.")
